@@ -282,6 +282,11 @@ def json_from(stdout: str):
 
 def main_wrapper(prop: str, run: Callable[[Report], None], argv):
     import argparse
+    import signal
+    try:
+        signal.signal(signal.SIGPIPE, signal.SIG_DFL)      # `check | head` must not turn into a checker crash
+    except Exception:
+        pass
 
     ap = argparse.ArgumentParser()
     ap.add_argument("--tier", default=os.environ.get("VERIF_TIER", "quick"))
